@@ -52,6 +52,12 @@ func isLifecycle(k string) bool { return k == "Initialized" || k == "Started" ||
 // CheckC04: lifecycle protocol per incarnation.
 func CheckC04(spec Spec, o *Obs, sim *Sim) error {
 	rs := o.recv()
+	// "Messages sent to the PID from the moment Spawn registered it ... are retained and delivered":
+	// a sentinel (or the stop request) that a later message of the same sender overtook for good was
+	// sent to a spawned, started actor and never delivered.  Decided by the driver without a clock.
+	if strings.Contains(o.Diverged, "lost or overtaken") || strings.Contains(o.Diverged, "still handling messages sent after the batch that should have stopped it") {
+		return fmt.Errorf("%s; receiver log: %s", o.Diverged, fmtLog(rs))
+	}
 	// (a) structure per incarnation: Initialized (Started msg*)? Stopped? and nothing after Stopped
 	type st struct{ init, started, stopped bool }
 	incs := map[int]*st{}
